@@ -462,6 +462,10 @@ MicroSteps(f, stk) ==
     [] f = "oo"      -> {<<"order_rows", <<k>>, r, lim>> : k \in {"o", "z", "w"} \cap SetOf(cols), r \in {<<>>}, lim \in {0, 1}}
     \* an ordering with a limit in either direction, right before a window ordered by the same column in either direction
     [] f = "oor"     -> UNION {{<<"order_rows", <<k>>, r, lim>> : r \in {<<>>, <<k>>}, lim \in {0, 2}} : k \in {"o"} \cap SetOf(cols)}
+    \* one grouped project, a selection that keeps everything, a select_columns that reverses the column order
+    [] f = "po1"     -> IF {"o", "x"} \subseteq SetOf(cols) THEN {<<"project", <<<<"w", "sum", "x">>>>, <<"o">>>>} ELSE {}
+    [] f = "sr"      -> {<<"select_rows", <<"b", ">=", C(k), K(0)>>>> : k \in {"o"} \cap SetOf(cols)}
+    [] f = "corev"   -> IF Len(cols) >= 2 THEN {<<"select_columns", [i \in 1..Len(cols) |-> cols[Len(cols) + 1 - i]]>>} ELSE {}
     [] OTHER -> {}
 FocusAll == {"extend", "wextend", "project", "select_rows", "cols", "order", "stack", "binary"}
 FamSteps(f, stk) ==
